@@ -17,8 +17,22 @@ NA = ('eigen_sym33_non_unit / eigen_sym33_unit themselves (rational functions of
       'data-dependent switches): replaced by their contract, not verified',
       'pow_symm / _pow_relative_difference accuracy', 'right_polar_decomposition',
       'LinAlg.sqrtm / sqrtm_dbp / logm_iss / log_pade_pf (while loops over LU-based inverses)',
+      'equivalence of a single compiled call and vmap/jit batches (JAX transformation semantics are part of the trusted base)',
       'rounding error of the evaluation (all values are mathematical reals)')
 
+
+DESIGNED_NOT_REGISTERED = [
+    ('O5 monolithic: L S + S L = sym(dC) through the real jvp rule for a general 3-D orthogonal V',
+     'unknown @120-150 s in every formulation tried (9 havoc\'d V entries + orthogonality/reconstruction assumptions; unit quaternion; '
+     'normalised quaternion; Euler angles; core and nlsat). Replaced by: in-plane rotations monolithically through the real code (O5c) and the '
+     'cut-lemma chain O5b.rule_sqrt (structure for ANY V + entries) -> O5d (all rotations, thorough tier).'),
+    ('O6 monolithic: sqrt_symm(A)^2 = A with havoc\'d V + contract assumptions', 'unknown @60 s (core, nlsat); same replacement (O6 in-plane + chain O5d/square)'),
+    ('O6 rotation equivariance f(Q A Q^T) = Q f(A) Q^T modulo the contract',
+     'with two independent contract stubs (for A and Q A Q^T) this is the uniqueness of the spectral matrix function under a change of '
+     'eigenbasis inside eigenspaces: 9+9+4 unknowns, not attempted; for the stub pair (lam, Q V) it is immediate from O5b structure.primal_is_V_f_lam_Vt'),
+    ('O4 Taylor branch of _relative_log_difference', 'truncation-error bound against log (uninterpreted): needs analytic remainder axioms; function is unused by the library'),
+    ('O3 strict monotonicity of the Pade approximant', 'registered in the thorough tier only (27 s alone)'),
+]
 
 def TM():
     from optimism import TensorMath
@@ -489,7 +503,7 @@ def _rule_obligation(h, which):
     dom = {'sqrt': 'lam_i >= 0 (derivative claims: lam_i > 0; at lam_i = 0 the code returns derivative 0, stated)', 'exp': 'all real lam',
            'log': 'lam_i > 0'}[which]
     h.bounds('entries (eigenframe): lam ascending, %s, repeated eigenvalues included' % dom,
-             'structure: any lam in R^3, any real 3x3 V (orthogonal or not), any real 3x3 Cdot')
+             'structure: any lam in the domain of f (any order), any real 3x3 V (orthogonal or not), any real 3x3 Cdot')
     c = _rule_case(h, which)
     ax = fe_axioms(c.ctx) if which != 'sqrt' else []
 
@@ -512,6 +526,9 @@ def _rule_obligation(h, which):
                 ats.append(Eq(v_mul(lam[k], H[k][k]), 1.0, name='diag%d_is_derivative' % k))
         for a in range(3):
             for b in range(3):
+                if which == 'sqrt' and a <= b:
+                    # the form used by the chain O5d
+                    ats.append(Eq(v_mul(H[a][b], v_add(f[a], f[b])), 1.0, when=v_lt(0.0, lam[0]), name='H%d%d_times_sum_of_roots_is_1' % (a, b)))
                 if a != b:
                     ats.append(Eq(v_mul(H[a][b], v_sub(lam[a], lam[b])), v_sub(f[a], f[b]), when=v_not(v_eq(lam[a], lam[b])),
                                   name='offdiag%d%d_is_divided_difference' % (a, b)))
@@ -522,7 +539,9 @@ def _rule_obligation(h, which):
     def spec_struct(i, o):
         lam, V, Cd = list(i['lam']), M(i['V']), M(i['Cd'])
         S, L, H, f = M(o[0]), M(o[1]), M(o[3]), list(o[4])
-        return [], [Eq(fl(L), fl(dk_formula(V, H, Cd)), name='tangent_is_V_HoW_Vt'),
+        # (the identities hold for any lam; the domain of f is assumed only so that a counterexample is replayable in floats)
+        dom_asm = {'sqrt': [v_le(0.0, x) for x in lam], 'log': [v_lt(0.0, x) for x in lam], 'exp': []}[which]
+        return dom_asm, [Eq(fl(L), fl(dk_formula(V, H, Cd)), name='tangent_is_V_HoW_Vt'),
                     Eq(fl(S), fl(mm(mm(V, mdiag(f)), mT(V))), name='primal_is_V_f_lam_Vt')]
     c.prove('structure', spec_struct, order=('nlsat', 'core'), denoms=False, cap=60)
     return c
@@ -577,12 +596,32 @@ def _inplane_case(h, axis, with_jvp=True):
     def smp(rng):
         t = rng.uniform(0, 2 * math.pi)
         return [onp.array([math.cos(t), math.sin(t)]), onp.sort(rng.uniform(0.3, 2.0, size=3)), rng.normal(size=6)]
-    return Case(h, fn, dict(cs=onp.array([0.6, 0.8]), r=onp.array([0.5, 1.0, 1.5]), d6=onp.ones(6)), sampler=smp, label='sqrt_inplane_axis%d' % axis, jit=False)
+    # sqrt(r_i * r_i) is r_i itself (hypothesis r_i >= 0 is part of every query): saves the solver three quadratic definitions
+    ctx = jx.Ctx()
+    ctx.keep_alive = []
+    for ri in sym.sym_array('r', (3,)):
+        t = ri * ri
+        ctx.keep_alive.append(t)        # z3 AST ids are only unique while the AST is alive
+        ctx.cache[('sqrt', t.get_id())] = ri
+    return Case(h, fn, dict(cs=onp.array([0.6, 0.8]), r=onp.array([0.5, 1.0, 1.5]), d6=onp.ones(6)), sampler=smp, label='sqrt_inplane_axis%d' % axis,
+                jit=False, ctx=ctx)
 
 
-def _contract_asm(i, strict_pos=True):
+SEED_NOTE = 'in-plane cases: the term sqrt(r_i*r_i) is encoded as r_i (sound under the hypothesis r_i >= 0 of those queries)'
+# the four multiplicity patterns of an ascending triple; together they are exactly r_0 <= r_1 <= r_2
+PATTERNS = (('distinct', v_lt, v_lt), ('double_low', v_eq, v_lt), ('double_high', v_lt, v_eq), ('triple', v_eq, v_eq))
+
+
+def v_eq_replay_tol(a, b, tol=1e-9):
+    """exact equality for the solver; in a float replay a hypothesis `c^2 + s^2 = 1` can only hold up to rounding"""
+    if sym.num(a) and sym.num(b):
+        return abs(a - b) <= tol
+    return v_eq(a, b)
+
+
+def _contract_asm(i, pat, strict_pos=True):
     cs, r = list(i['cs']), list(i['r'])
-    return [v_eq(v_add(v_sq(cs[0]), v_sq(cs[1])), 1.0), (v_lt if strict_pos else v_le)(0.0, r[0]), v_le(r[0], r[1]), v_le(r[1], r[2])]
+    return [v_eq_replay_tol(v_add(v_sq(cs[0]), v_sq(cs[1])), 1.0), (v_lt if strict_pos else v_le)(0.0, r[0]), pat[1](r[0], r[1]), pat[2](r[1], r[2])]
 
 
 @obligation(P, 'O5c.sqrt_defining_equation_inplane', cap=300)
@@ -598,15 +637,17 @@ def o5c(h):
              '0 < r_0 <= r_1 <= r_2 (all positive spectra, repeated eigenvalues included); dC: all symmetric 3x3 (6 reals)',
              'general 3-D rotations: by the cut-lemma chain O5b.rule_sqrt (structure + entries) -> O5d (thorough tier)')
     h.outside('singular C (lam_0 = 0): sqrt is not differentiable there; the code returns H_00 = 0 (stated in O5b.rule_sqrt)', *NA)
-    h.assume_note(CONTRACT_NOTE)
+    h.assume_note(CONTRACT_NOTE, SEED_NOTE)
+    h.bounds('the hypothesis r_0 <= r_1 <= r_2 is split into its four multiplicity patterns (<,<), (=,<), (<,=), (=,=): one query each')
     for axis in ((2, 0, 1) if h.thorough() else (2,)):
         c = _inplane_case(h, axis)
 
-        def spec(i, o):
-            S, L, D = M(o[0]), M(o[1]), msym6(list(i['d6']))
-            return _contract_asm(i), [Eq(fl(madd(mm(L, S), mm(S, L))), fl(D), name='L_S_plus_S_L_is_dC', scale=1.0),
-                                      Eq(fl(L), fl(mT(L)), name='tangent_symmetric')]
-        c.prove('axis%d' % axis, spec, order=('core', 'nlsat'), cap=90)
+        for pat in PATTERNS:
+            def spec(i, o, pat=pat):
+                S, L, D = M(o[0]), M(o[1]), msym6(list(i['d6']))
+                return _contract_asm(i, pat), [Eq(fl(madd(mm(L, S), mm(S, L))), fl(D), name='L_S_plus_S_L_is_dC', scale=1.0),
+                                               Eq(fl(L), fl(mT(L)), name='tangent_symmetric')]
+            c.prove('axis%d.%s' % (axis, pat[0]), spec, order=('core', 'nlsat'), cap=60)
 
 
 # ------------------------------------------------------------------------------------------------ O6
@@ -619,13 +660,84 @@ def o6(h):
     h.bounds('V: every rotation about the z axis (quick) and about x, y (thorough); lam_i = r_i^2, 0 <= r_0 <= r_1 <= r_2',
              'general 3-D rotations: chain O5b.rule_sqrt/structure.primal_is_V_f_lam_Vt (any V) -> O5d (thorough tier)')
     h.outside(*NA)
-    h.assume_note(CONTRACT_NOTE)
+    h.assume_note(CONTRACT_NOTE, SEED_NOTE)
     for axis in ((2, 0, 1) if h.thorough() else (2,)):
         c = _inplane_case(h, axis, with_jvp=False)
 
-        def spec(i, o):
-            S, C, V, r = M(o[0]), M(o[2]), M(o[3]), list(i['r'])
-            return _contract_asm(i, strict_pos=False), [Eq(fl(mm(S, S)), fl(C), name='S_S_is_C', scale=1.0),
-                                                        Eq(fl(S), fl(mT(S)), name='S_symmetric'),
-                                                        Eq(fl(S), fl(mm(mm(V, mdiag(r)), mT(V))), name='S_is_V_diag_r_Vt')]
-        c.prove('axis%d' % axis, spec, order=('core', 'nlsat'), cap=90)
+        for pat in PATTERNS:
+            def spec(i, o, pat=pat):
+                S, C, V, r = M(o[0]), M(o[2]), M(o[3]), list(i['r'])
+                return _contract_asm(i, pat, strict_pos=False), [Eq(fl(mm(S, S)), fl(C), name='S_S_is_C', scale=1.0),
+                                                                 Eq(fl(S), fl(mT(S)), name='S_symmetric'),
+                                                                 Eq(fl(S), fl(mm(mm(V, mdiag(r)), mT(V))), name='S_is_V_diag_r_Vt')]
+            c.prove('axis%d.%s' % (axis, pat[0]), spec, order=('core', 'nlsat'), cap=60)
+
+
+# ------------------------------------------------------------------------------------------------ O5d (cut-lemma chain)
+def quat_R(q):
+    """homogeneous quaternion rotation form: R(q)^T R(q) = |q|^4 I identically; R(q)/|q|^2 ranges over all of SO(3)"""
+    w, x, y, z = q
+    sq = v_sq
+    two = lambda a, b, c, d, sg: v_mul(2.0, (v_add if sg > 0 else v_sub)(v_mul(a, b), v_mul(c, d)))
+    return [[v_sub(v_add(sq(w), sq(x)), v_add(sq(y), sq(z))), two(x, y, w, z, -1), two(x, z, w, y, +1)],
+            [two(x, y, w, z, +1), v_sub(v_add(sq(w), sq(y)), v_add(sq(x), sq(z))), two(y, z, w, x, -1)],
+            [two(x, z, w, y, -1), two(y, z, w, x, +1), v_sub(v_add(sq(w), sq(z)), v_add(sq(x), sq(y)))]]
+
+
+@obligation(P, 'O5d.sqrt_equation_all_rotations_chain', tiers=('thorough',), cap=900)
+def o5d(h):
+    """cut-lemma chain for ALL orientations: from the forms proved on the real code for every stub pair (O5b.rule_sqrt):
+    L = V (H o (V^T dC V)) V^T, S = V diag(s) V^T, H_ab (s_a + s_b) = 1 (entries, incl. the confluent case 2 s_a H_aa = 1),
+    s_a^2 = lam_a - with the definitions of L, S, H dropped - follow L S + S L = dC and S S = V diag(lam) V^T = C for every
+    orthogonal V. Stated homogeneously for V = R(q), q in R^4 unconstrained (V^T V = |q|^4 I): L S + S L = |q|^12 dC and
+    S S = |q|^4 V diag(s^2) V^T; L is homogeneous of degree 4 and S of degree 2 in V, so dividing by |q|^2 gives the claim for the
+    orthogonal matrix +-R(q)/|q|^2 (L and S are even in V)"""
+    h.encoded('harness algebra over the lemma forms of O5b.rule_sqrt (optimism.TensorMath:_sqrt_symm_jvp, sqrt_symm); no new code is encoded here')
+    h.bounds('q: all of R^4 (all rotations; improper orthogonal matrices by evenness in V); s: all of R^3 (no order needed); '
+             'H: any symmetric 3x3 with H_ab (s_a + s_b) = 1; dC: all symmetric 3x3')
+    h.outside(*NA)
+    h.assume_note('lemma forms of O5b.rule_sqrt are used with their definitions dropped (cut-lemma chain, DESIGN.md section 4)')
+    q = [z3.Real('q%d' % k) for k in range(4)]
+    s = [z3.Real('s%d' % k) for k in range(3)]
+    d = [z3.Real('d%d' % k) for k in range(6)]
+    hh = [z3.Real('h%d' % k) for k in range(6)]
+    t = z3.Real('t')
+    Vg = [[z3.Real('V%d%d' % (a, b)) for b in range(3)] for a in range(3)]
+    inputs = dict(q=onp.array(q, dtype=object), s=onp.array(s, dtype=object), d=onp.array(d, dtype=object), h=onp.array(hh, dtype=object),
+                  t=t, V=onp.array(Vg, dtype=object))
+
+    def forms(V, H, s, D):
+        return dk_formula(V, H, D), mm(mm(V, mdiag(s)), mT(V))
+
+    def build(q, s, d, hh, t, Vg):
+        D, H = msym6(d), msym6(hh)
+        n = v_sum([v_sq(x) for x in q])
+        n2 = v_mul(n, n)
+        n6 = v_mul(v_mul(n2, n2), n2)
+        R = quat_R(q)
+        L, S = forms(R, H, s, D)
+        X = madd(mm(L, S), mm(S, L))
+        asm = [v_eq(v_mul(H[a][b], v_add(s[a], s[b])), 1.0) for a in range(3) for b in range(a, 3)]
+        ats = {}
+        for a in range(3):
+            for b in range(a, 3):
+                ats['sylvester[%d%d]' % (a, b)] = (asm, Eq(X[a][b], v_mul(n6, D[a][b]), name='L_S_plus_S_L_is_n6_dC'))
+        SS = mm(S, S)
+        C = mscale(n2, mm(mm(R, mdiag([v_sq(x) for x in s])), mT(R)))
+        ats['square'] = ([], Eq(fl(SS), fl(C), name='S_S_is_n2_V_diag_s2_Vt'))
+        ats['gram'] = ([], Eq(fl(mm(mT(R), R)), fl(mscale(n2, eye())), name='Rt_R_is_n2_I'))
+        # homogeneity / evenness of the lemma forms in V (generic V)
+        Lg, Sg = forms(Vg, H, s, D)
+        Lt, St = forms(mscale(t, Vg), H, s, D)
+        t2 = v_mul(t, t)
+        ats['homogeneous'] = ([], Eq(fl(Lt) + fl(St), fl(mscale(v_mul(t2, t2), Lg)) + fl(mscale(t2, Sg)), name='L_deg4_S_deg2_in_V'))
+        return ats
+
+    zat = build(q, s, d, hh, t, Vg)
+    for name, (asm, atom) in zat.items():
+        def concrete(vals, name=name):
+            f = lambda k: [float(x) for x in onp.asarray(vals[k], dtype=float).ravel()]
+            Vc = onp.asarray(vals['V'], dtype=float).reshape(3, 3)
+            asm_c, atom_c = build(f('q'), f('s'), f('d'), f('h'), float(vals['t']), [[float(Vc[a, b]) for b in range(3)] for a in range(3)])[name]
+            return all(bool(x) for x in asm_c), atom_c, 'harness algebra (no code involved)'
+        h.prove(name, asm, atom, inputs=inputs, concrete=concrete, cap=200, order=('core',) if name.startswith('sylvester') else ('nlsat', 'core'))
